@@ -36,7 +36,7 @@ type Case struct {
 	Workers  int              `json:"workers,omitempty"`
 	Delay    int              `json:"delay,omitempty"`
 	Impl     string           `json:"impl,omitempty"` // repository / report implementation
-	Bytes    string           `json:"bytes,omitempty"`
+	Doc      []byte           `json:"doc,omitempty"` // document bytes (base64 in the replay file)
 	Frag     []int            `json:"frag,omitempty"`
 	Assets   []AssetSpec      `json:"assets,omitempty"`
 	Names    []string         `json:"names,omitempty"`
